@@ -280,6 +280,11 @@ func genSmall(level string, n int, reduced bool, emit func(*History)) {
 func newRand(seed int64) *rand.Rand { return rand.New(rand.NewSource(seed)) }
 
 func main() {
+	if len(os.Args) >= 7 && os.Args[1] == "load" {
+		slog.SetDefault(slog.New(slog.NewTextHandler(io.Discard, nil)))
+		childMain(os.Args[2:])
+		return
+	}
 	if len(os.Args) < 4 || os.Args[1] != "run" {
 		fmt.Fprintln(os.Stderr, "usage: hydfile run <config.json> <trace.ndjson>")
 		os.Exit(2)
